@@ -38,20 +38,32 @@ type FakeServer struct {
 	Hook func(sql string) (*Result, bool)
 
 	noticeEvery time.Duration
+	noticeBurst int
 }
 
 // noticeCode marks the NoticeResponse messages of the background noise (Config.NoticeEvery).
 const noticeCode = "01VRF"
 
+const noticeBurst = 16
+
 // noise writes complete NoticeResponse messages to the connection until it is closed. Every flush of the
 // protocol goroutine is one Write call and so is every notice: the messages never mix.
 func (f *FakeServer) noise(rc recConn) {
-	msg, _ := (&pgproto3.NoticeResponse{Severity: "NOTICE", Code: noticeCode, Message: "verif background notice"}).Encode(nil)
+	one, _ := (&pgproto3.NoticeResponse{Severity: "NOTICE", Code: noticeCode, Message: "verif background notice"}).Encode(nil)
+	// a burst per write: the proxy's database side then works on messages back to back for a while
+	// (time.Sleep cannot pace single messages a few microseconds apart)
+	burst := f.noticeBurst
+	if burst <= 0 {
+		burst = noticeBurst
+	}
+	msg := bytes.Repeat(one, burst)
 	for {
 		if _, err := rc.Write(msg); err != nil {
 			return
 		}
-		time.Sleep(f.noticeEvery)
+		if f.noticeEvery >= time.Microsecond {
+			time.Sleep(f.noticeEvery)
+		} // else back to back: the socket buffer paces the writer
 	}
 }
 
